@@ -137,6 +137,18 @@ def recurrenceNetwork (m : Metric) (emb : List (List V)) (mv : Bool) (s : Spec) 
     let A := if mv then deleteMasked A (missingMask emb) else A
     .ok ⟨A, p.R, A.length⟩
 
+/-- `inter_system_recurrence_matrix`: `ISRM = np.zeros((N, N))` and the four slice assignments
+`ISRM[:N_x, :N_x] = Rx; ISRM[:N_x, N_x:N] = CR; ISRM[N_x:N, :N_x] = CR.T; ISRM[N_x:N, N_x:N] = Ry`
+with every written bound generated from the source (absent lower bounds are `0`) -/
+def isrmParts (N : Int) (nx ny : Nat) (Rx Ry CR : List (List Bool)) :
+    List (Slot × List (List Bool)) :=
+  [(⟨0, ArithC07.isrmXXRowHi N nx, 0, ArithC07.isrmXXColHi N nx⟩, Rx),
+   (⟨0, ArithC07.isrmXYRowHi N nx, ArithC07.isrmXYColLo N nx, ArithC07.isrmXYColHi N nx⟩, CR),
+   (⟨ArithC07.isrmYXRowLo N nx, ArithC07.isrmYXRowHi N nx, 0, ArithC07.isrmYXColHi N nx⟩,
+      transpose CR nx ny),
+   (⟨ArithC07.isrmYYRowLo N nx, ArithC07.isrmYYRowHi N nx, ArithC07.isrmYYColLo N nx,
+      ArithC07.isrmYYColHi N nx⟩, Ry)]
+
 /-- `InterSystemRecurrenceNetwork.__init__` with thresholds / rates `(s1, s2, s3)`;
 `N_x`, `N_y` are the numbers of (embedded) state vectors -/
 def interSystem (m : Metric) (ex ey : List (List V)) (s1 s2 s3 : Spec)
@@ -147,7 +159,7 @@ def interSystem (m : Metric) (ex ey : List (List V)) (s1 s2 s3 : Spec)
   (recurrencePlot m ey false s2).bind fun py =>
   (crossPlot m ex ey s3).bind fun pc =>
     let total := ArithC07.isrnTotalN nx ny
-    (Res.valueError.ofOption (isrm nx ny px.R py.R pc.R)).bind fun I =>
+    (Res.valueError.ofOption (assemble total.toNat (isrmParts total nx ny px.R py.R pc.R))).bind fun I =>
       let A := adjacencyOf I (if rate then ArithC07.isrnStrideRate total else ArithC07.isrnStride total)
       .ok ⟨A, I, A.length⟩
 
